@@ -224,6 +224,8 @@ class Inliner:
             if isinstance(n, ast.ClassDef):
                 self.classes[n.name] = n
         self.counter = 0
+        # private module-level helper functions (`def _asSet(x): ...`)
+        self.module_fns = {n.name: n for n in tree.body if isinstance(n, ast.FunctionDef) and n.name.startswith("_") and not n.name.startswith("__")}
 
     # ---- helper lookup
     def method(self, cls, name, _seen=None):
@@ -329,6 +331,10 @@ class Inliner:
             fn = local_fns[f.id]
             if self.eligible(fn, private=False) and not fn.decorator_list:
                 return fn, "static", None
+        if isinstance(f, ast.Name) and f.id in self.module_fns:
+            fn = self.module_fns[f.id]
+            if self.eligible(fn) and not fn.decorator_list:
+                return fn, "static", None
         return None
 
     def instantiate(self, fn, binding, caller_fn):
@@ -404,6 +410,14 @@ class Inliner:
                     pre = self.process_block([probe], cls, selfname, local_fns, caller_fn, depth + 1)
                     if len(pre) > 1 and pre[-1] is probe:
                         st.test = probe.value
+                        out += pre[:-1]
+                if isinstance(st, ast.For) and depth < MAX_DEPTH:
+                    probe = ast.Expr(value=st.iter)
+                    probe._keep_value = True
+                    ast.copy_location(probe, st)
+                    pre = self.process_block([probe], cls, selfname, local_fns, caller_fn, depth + 1)
+                    if len(pre) > 1 and pre[-1] is probe:
+                        st.iter = probe.value
                         out += pre[:-1]
                 # other helper calls in a header (while test / for iter): only expression-like helpers
                 hdr = st.test if isinstance(st, (ast.If, ast.While)) else (st.iter if isinstance(st, ast.For) else None)
@@ -559,7 +573,7 @@ class Inliner:
         for x in nodes:
             if isinstance(x, ast.Call):
                 f = x.func
-                if isinstance(f, ast.Name) and f.id in local_fns:
+                if isinstance(f, ast.Name) and (f.id in local_fns or f.id in self.module_fns):
                     return True
                 if isinstance(f, ast.Attribute) and isinstance(f.value, ast.Name) and f.attr.startswith("_") and not f.attr.startswith("__"):
                     if (selfname and f.value.id == selfname) or f.value.id in self.classes:
@@ -885,6 +899,137 @@ def unroll_constant_loops(tree):
     ast.fix_missing_locations(tree)
 
 
+PURE_CALLS = {"math.isnan", "math.isinf", "math.isfinite", "np.isnan", "numpy.isnan", "isinstance", "len", "abs", "float", "int", "bool", "min", "max"}
+
+
+def _pure_value(e):
+    """an expression over local names, constants, operators and a few pure functions: its value cannot be changed by statements that
+    do not assign those names (no attribute or subscript reads)"""
+    for x in ast.walk(e):
+        if isinstance(x, (ast.Attribute, ast.Subscript, ast.Lambda, ast.Await, ast.Yield, ast.YieldFrom, ast.NamedExpr, ast.Starred,
+                          ast.ListComp, ast.SetComp, ast.DictComp, ast.GeneratorExp)):
+            if isinstance(x, ast.Attribute) and ast.unparse(x) in PURE_CALLS:
+                continue
+            return False
+        if isinstance(x, ast.Call) and ast.unparse(x.func) not in PURE_CALLS:
+            return False
+    return True
+
+
+def forward_pure_flags(tree):
+    """N13  `flag = <pure expression over locals>` used exactly once later in the same block (typically as an `if` test): the expression
+    is written at the use and the assignment disappears (no statement in between assigns a name the expression reads)"""
+    for fn in ast.walk(tree):
+        if not isinstance(fn, (ast.FunctionDef, ast.AsyncFunctionDef)):
+            continue
+        loads, stores = {}, {}
+        for x in ast.walk(fn):
+            if isinstance(x, ast.Name):
+                d = stores if isinstance(x.ctx, (ast.Store, ast.Del)) else loads
+                d[x.id] = d.get(x.id, 0) + 1
+        for node in ast.walk(fn):
+            for fld in ("body", "orelse"):
+                b = getattr(node, fld, None)
+                if not (isinstance(b, list) and len(b) >= 2 and isinstance(b[0], ast.stmt)):
+                    continue
+                i = 0
+                while i < len(b):
+                    st = b[i]
+                    i += 1
+                    if not (isinstance(st, ast.Assign) and len(st.targets) == 1 and isinstance(st.targets[0], ast.Name)):
+                        continue
+                    v = st.targets[0].id
+                    if stores.get(v) != 1 or loads.get(v) != 1 or not _pure_value(st.value):
+                        continue
+                    if not isinstance(st.value, (ast.BoolOp, ast.UnaryOp, ast.Compare, ast.Call)):
+                        continue          # only boolean-looking flags; plain copies and arithmetic temporaries are left alone
+                    reads = {x.id for x in ast.walk(st.value) if isinstance(x, ast.Name)}
+                    use_at = None
+                    for j in range(i, len(b)):
+                        s2 = b[j]
+                        hdr = [s2.test] if isinstance(s2, (ast.If, ast.While)) else ([s2] if isinstance(s2, (ast.Expr, ast.Assign, ast.AugAssign, ast.Return)) else [])
+                        if any(isinstance(x, ast.Name) and x.id == v and isinstance(x.ctx, ast.Load) for h in hdr for x in ast.walk(h)):
+                            use_at = j
+                            break
+                        if _names_stored(s2) & reads or any(isinstance(x, ast.Name) and x.id == v for x in ast.walk(s2)):
+                            break
+                    if use_at is None or isinstance(b[use_at], ast.While):
+                        continue
+                    s2 = b[use_at]
+                    sub = _Subst({v: st.value}, {})
+                    if isinstance(s2, ast.If):
+                        s2.test = sub.visit(s2.test)
+                    else:
+                        b[use_at] = sub.visit(s2)
+                    del b[i - 1]
+                    i -= 1
+                    loads[v] = 0
+    ast.fix_missing_locations(tree)
+
+
+class _Operator(ast.NodeTransformer):
+    """N14  operator.add(a, b) -> a + b (mul, sub, truediv likewise); operator.iadd(x, y) as a statement -> x += y;
+    map(op, A, B) -> (a op b for a, b in zip(A, B)); map(op, A, repeat(c)) -> (a op c for a in A)"""
+    OPS = {"add": ast.Add, "mul": ast.Mult, "sub": ast.Sub, "truediv": ast.Div}
+    IOPS = {"iadd": ast.Add, "imul": ast.Mult, "isub": ast.Sub}
+
+    def __init__(self, names):
+        self.names = names          # local name -> operator function name ("mul", "repeat", ...)
+        self.n = 0
+
+    def opname(self, f):
+        if isinstance(f, ast.Attribute) and isinstance(f.value, ast.Name) and f.value.id in ("operator", "itertools"):
+            return f.attr
+        if isinstance(f, ast.Name) and f.id in self.names:
+            return self.names[f.id]
+        return None
+
+    def visit_Expr(self, st):
+        self.generic_visit(st)
+        c = st.value
+        if isinstance(c, ast.Call) and self.opname(c.func) in self.IOPS and len(c.args) == 2 and isinstance(c.args[0], (ast.Name, ast.Attribute, ast.Subscript)):
+            tgt = copy.deepcopy(c.args[0])
+            for x in ast.walk(tgt):
+                if hasattr(x, "ctx"):
+                    x.ctx = ast.Load()
+            tgt.ctx = ast.Store()
+            return ast.copy_location(ast.AugAssign(target=tgt, op=self.IOPS[self.opname(c.func)](), value=c.args[1]), st)
+        return st
+
+    def visit_Call(self, c):
+        self.generic_visit(c)
+        op = self.opname(c.func)
+        if op in self.OPS and len(c.args) == 2 and not c.keywords:
+            return ast.copy_location(ast.BinOp(left=c.args[0], op=self.OPS[op](), right=c.args[1]), c)
+        if isinstance(c.func, ast.Name) and c.func.id == "map" and len(c.args) == 3 and self.opname(c.args[0]) in self.OPS and not c.keywords:
+            o = self.OPS[self.opname(c.args[0])]
+            self.n += 1
+            a, b2 = f"_m{self.n}_a", f"_m{self.n}_b"
+            second = c.args[2]
+            if isinstance(second, ast.Call) and self.opname(second.func) == "repeat" and len(second.args) == 1:
+                elt = ast.BinOp(left=ast.Name(id=a, ctx=ast.Load()), op=o(), right=second.args[0])
+                gen = ast.comprehension(target=ast.Name(id=a, ctx=ast.Store()), iter=c.args[1], ifs=[], is_async=0)
+            else:
+                elt = ast.BinOp(left=ast.Name(id=a, ctx=ast.Load()), op=o(), right=ast.Name(id=b2, ctx=ast.Load()))
+                zipc = ast.Call(func=ast.Name(id="zip", ctx=ast.Load()), args=[c.args[1], second], keywords=[])
+                gen = ast.comprehension(target=ast.Tuple(elts=[ast.Name(id=a, ctx=ast.Store()), ast.Name(id=b2, ctx=ast.Store())], ctx=ast.Store()),
+                                        iter=zipc, ifs=[], is_async=0)
+            return ast.copy_location(ast.ListComp(elt=elt, generators=[gen]), c)
+        return c
+
+
+def operator_idioms(tree):
+    names = {}
+    for st in ast.walk(tree):
+        if isinstance(st, ast.ImportFrom) and st.module in ("operator", "itertools"):
+            for al in st.names:
+                names[al.asname or al.name] = al.name
+    uses = any(isinstance(x, ast.Attribute) and isinstance(x.value, ast.Name) and x.value.id == "operator" for x in ast.walk(tree))
+    if names or uses:
+        _Operator(names).visit(tree)
+        ast.fix_missing_locations(tree)
+
+
 def boolify_tests(tree):
     for n in ast.walk(tree):
         if isinstance(n, (ast.If, ast.While)) and any(isinstance(x, ast.IfExp) for x in ast.walk(n.test)):
@@ -896,6 +1041,7 @@ def boolify_tests(tree):
 
 def apply(tree, helpers=True):
     unroll_constant_loops(tree)
+    operator_idioms(tree)
     if helpers:
         try:
             Inliner(tree).run()
@@ -906,6 +1052,7 @@ def apply(tree, helpers=True):
         if isinstance(fn, (ast.FunctionDef, ast.AsyncFunctionDef)):
             unfold_return_guards(fn)
     eliminate_attribute_aliases(tree)
+    forward_pure_flags(tree)
     sink_alias_selection(tree)
     ast.fix_missing_locations(tree)
     return tree
